@@ -6,8 +6,8 @@
 From Coq Require Import List NArith ZArith Bool.
 From Coq Require String.
 Import String.StringSyntax.
-From Sccache Require Import Base.Sx Model.DistStatus Model.DistFallback Model.DistArgs Model.DistHistory Model.DistRustInputs Model.DistPaths.
-From Sccache Require Proofs.DistStatus Proofs.DistFallback Proofs.DistArgs Proofs.DistHistory Proofs.DistRustInputs Proofs.DistPaths.
+From Sccache Require Import Base.Sx Model.DistStatus Model.DistFallback Model.DistArgs Model.DistHistory Model.DistRustInputs Model.DistPaths Model.DistRoutes.
+From Sccache Require Proofs.DistStatus Proofs.DistFallback Proofs.DistArgs Proofs.DistHistory Proofs.DistRustInputs Proofs.DistPaths Proofs.DistRoutes Gen.C13Routes.
 Import ListNotations.
 
 (* ------------------------------------------------------------------ exit status *)
@@ -300,6 +300,50 @@ Proof. vm_compute. auto. Qed.
 Example rlib_deps_example :
   fst (rrun r_init [RBuild 2 []; RDiscover 2; RBuild 2 [1%N]; RDiscover 2])
   = [None; Some []; None; Some [1%N]].
+Proof. vm_compute. reflexivity. Qed.
+
+(* ------------------------------------------------------------------ route status classes, compiler aliases *)
+
+(* Gen/C13Routes.v is the table of the scheduler's and the build server's routes as they are in src/dist/http.rs
+   (regenerated every run).  Its side condition `routes_ok routes = true` - no failure of a handler or of the front
+   end's own bookkeeping is answered with a 4xx or 2xx status - is discharged by vm_compute in the generated
+   Gen/C13Routes_ok.v, compiled as a separate obligation AFTER the correspondence legs (lib/props/c13.py `extra`), so
+   that a tree which breaks it is still searched for a concrete failing request.
+   Composed with the fallback table: when the scheduler's or the build server's own handler fails behind a route the
+   client talks to (alloc_job, submit_toolchain, run_job) - build server killed before / after assignment, toolchain
+   rejected, job unknown - the request is compiled locally and returns the local compiler's result *)
+Theorem C13_route_handler_faults_fall_back :
+  routes_ok Gen.C13Routes.routes = true ->
+  forall (r : route) (c : N) (st : stage) (s : script) (f : fs),
+  In (r, KHandler, c) Gen.C13Routes.routes -> client_stage r = Some st ->
+  s_gen s = true -> s_dist s = true -> first_fault s = Some (st, class_of_status c) ->
+  r_local_ran (dist_or_local true s f) = true
+  /\ r_out (dist_or_local true s f) = retag DistError (r_out (local_only s f)).
+Proof.
+  intros OK r c st s f. exact (Proofs.DistRoutes.route_handler_faults_fall_back _ r c st s f OK).
+Qed.
+Print Assumptions C13_route_handler_faults_fall_back.
+
+(* one compiler binary reached under several names through one toolchain cache: with a weak key that tells the
+   names apart (the path as given), every job is run in a toolchain packaged for the very executable it runs *)
+Theorem C13_alias_toolchains_match : forall (keyf : N -> N),
+  (forall a b, keyf a = keyf b -> a = b) ->
+  forall reqs s, tk_wf keyf s -> forallb (fun b => b) (tk_run keyf s reqs) = true.
+Proof. exact Proofs.DistRoutes.tk_all_match. Qed.
+Print Assumptions C13_alias_toolchains_match.
+
+(* a key that identifies a symlink (1) with its target (0): the second name's job gets the first name's toolchain *)
+Theorem C13_alias_canonical_key_refuted :
+  tk_run (fun a => if N.eqb a 1 then 0%N else a) {| tk_map := [] |} [1%N; 0%N] = [true; false].
+Proof. exact Proofs.DistRoutes.tk_canonical_key_refuted. Qed.
+Print Assumptions C13_alias_canonical_key_refuted.
+
+Example routes_nonvacuous :
+  forallb (fun r => existsb (fun x => match x with (r', KHandler, _) => match client_stage r, client_stage r' with
+                                                                        | Some StAlloc, Some StAlloc | Some StSubmit, Some StSubmit
+                                                                        | Some StRun, Some StRun => true | _, _ => false end
+                                           | _ => false end) Gen.C13Routes.routes)
+          [RAllocJob; RSubmitToolchain; RRunJob] = true.
 Proof. vm_compute. reflexivity. Qed.
 
 (* ------------------------------------------------------------------ remote command line *)
